@@ -9,30 +9,44 @@ C07 — data-class instances stay valid under every sequence of mutations.
 
 For every well-formed declaration `C` (any number of fields; required / optional / immutable / aliased /
 no_output / getter-property fields; every option combination), every converter world `W` that satisfies
-`Laws` (a converter's result conforms — C01's statement, taken as a hypothesis here), every value type and
-every finite history of public mutating operations on any number of instances obtained by `copy()`:
+`Laws` (a converter's result conforms — C01's statement, taken as a hypothesis here; property getters may
+raise and their results may fail to convert), every value type and every finite history of public mutating
+operations on any number of instances obtained by `copy()`.  The constructor is not modelled: `Valid` is
+assumed for the state handed to `__post_init__` (the oracle checks it on the real instance every run).
 
+Headline:
 * `C07_step`, `C07_init`, `C07_reachable`   every instance satisfies `Valid` (present fields conform, fields sit under
-  their output name, additions are of the addition type, required fields are present, attribute view and key
-  view agree) after every operation — whether it raised or not;
-* `C07_raise_unchanged`                     a single-key operation that raises leaves the instance as it was;
+  their output name, additions are of the addition type, required fields are present, a no_output field is not
+  under the keys, an output field absent from the keys is absent from `__dict__`) after every operation;
+* `C07_views_agree`, `C07_views_no_output`  what "attribute view = key view" means here and that `Valid` gives it: for
+  every alias, `in` / `[]` see the key; the attribute reads that very value, or (absent) nothing but the deferred
+  default.  A conforming constructor copy in `__dict__` of a field still under the keys is allowed: neither view shows it;
+* `C07_raise_unchanged`                     a single-key operation that raises leaves the instance as it was — including a
+  recomputed property whose result does not convert (the setter puts the state back);
 * `C07_copy_isolated`, `C07_copy_equal`     an operation on one instance changes no other; a copy equals its original;
-* `C07_immutable_step`, `C07_immutable`     immutable fields hold their initial value in every instance;
-* `C07_no_raw`                              every stored value was already there, or is a converter's output, a getter's
-  converted output, or an accepted addition;
-* `C07_fresh_step_partial`, `C07_fresh_reachable_partial`   stored properties equal their getter on the current
-  attribute values — *outside the known defect* `knownDefect` (decidable): an operation that removes a field
-  while a property computed from it stays stored.  `C07_stale_dependant_witness` shows the full statement is
-  false for the code as it is; the harness replays that witness on the real code (KNOWN-FINDING).
-* `C07_dataclass_*`                          the same for the attribute-based `DataClass`.
-* `C07_accessor_own`, `C07_dataclass_setattr_inherited`, `C07_dataclass_delattr_inherited`,
-  `C07_nested_instance_options`, `C07_nested_reachable`, `C07_nested_keeps_immutable`   an instance built as the value of a
-  field of another data class carries its own class options unless the enclosing ones `override` (and its own do not);
-  every history on it keeps `Valid` judged by its own declaration with the options it carries.
-  `C07_schema_setattr_inherited`             inheritance: the attribute of a field (declared, narrowed or inherited) reaches the
-  accessor bound to the instance's own class — own field declaration, own options — whatever the bases carry.
-* `C07_legacy_*_witness`                     the behaviour before `fixes/C07-mutators.patch` (model flag `lg = true`)
-  violates `Valid`: the five preliminary findings, as kernel-checked counter-examples.
+* `C07_immutable_step`, `C07_immutable`, `C07_class_immutable`   immutable fields hold their initial value in every
+  instance; on an `Options(immutable=True)` instance no operation changes the keys or a field's attribute;
+* `C07_no_raw`, `C07_no_raw_attrs`          every value under the keys / in `__dict__` under a field's attribute was there
+  before or is one of the operation's own arguments converted by the addressed field's type, a converted property
+  result, or an accepted addition;
+* `C07_fresh_step_partial`, `C07_fresh_init`, `C07_fresh_reachable_partial`   stored properties equal their converted getter
+  on the current attribute values — no totality assumption on getters — *outside the known defect* `knownDefect`
+  (decidable; `C07_knownDefect_succeeds`: it only flags operations that go through): an operation that removes a
+  field while a property computed from it stays stored.  `C07_stale_dependant_witness`: the full statement is false
+  for the code as it is; the harness replays that witness on the real code (KNOWN-FINDING);
+* `C07_dataclass_step/_reachable/_raise_unchanged/_immutable/_immutable_history`   the attribute-based `DataClass`;
+* `C07_accessor_own`, `C07_dataclass_setattr_inherited`, `C07_dataclass_delattr_inherited`, `C07_schema_setattr_inherited`
+  inheritance: the attribute of a field (declared, narrowed or inherited) reaches the accessor bound to the
+  instance's own class, whatever the bases carry;
+* `C07_nested_immutable_class`              an instance of an `Options(immutable=True)` class built inside a data class that
+  does not override cannot be changed by any operation.
+
+Not headline (they restate or instantiate the model; the content is tied by the correspondence run only):
+`C07_nested_instance_options_restates_model`, `C07_nested_reachable`.
+
+Witnesses: `C07_legacy_*_witness` — the behaviour before `fixes/C07-mutators.patch` and before
+`fixes/C07-recompute-failure.patch` (model flag `lg = true`) violates `Valid`, immutability, "raise ⇒ unchanged" or
+freshness, as kernel-checked counter-examples.
 
 The full statement that does not hold:
   theorem C07_fresh_step (h : Fresh C W s) : Fresh C W (step false C W s op).1        -- false, see witness
@@ -945,7 +959,7 @@ example : hNoDefect C₀ W₀ [s₀] [.on 0 (.setitem "c" 1007), .on 0 (.setattr
     .on 0 (.delitem "c")] = true := by decide
 
 /-- **Known defect (stale-dependant-after-delete).**  The full freshness statement is false for the code
-as it is: deleting `c` (schema.py:373-399 recomputes nothing) leaves the property `p` stored with the
+as it is: deleting `c` (schema.py:394-420 recomputes nothing) leaves the property `p` stored with the
 value computed from the deleted `c`. -/
 theorem C07_stale_dependant_witness :
     Fresh C₀ W₀ s₀ ∧ knownDefect C₀ s₀ (.delitem "c") = true ∧
